@@ -59,6 +59,7 @@ type Frame struct {
 	regs     map[ssa.Value]Value
 	env      map[string]Value
 	envAddr  map[string]bool
+	envType  map[string]string // declared type of each named local (for 'local' aliases of contracts)
 	defers   []deferred
 	ctr      *Contract
 	top      bool
@@ -94,6 +95,10 @@ func (fr *Frame) clone() *Frame {
 	n.envAddr = make(map[string]bool, len(fr.envAddr))
 	for k, v := range fr.envAddr {
 		n.envAddr[k] = v
+	}
+	n.envType = make(map[string]string, len(fr.envType))
+	for k, v := range fr.envType {
+		n.envType[k] = v
 	}
 	n.defers = append([]deferred{}, fr.defers...)
 	n.active = append([]loopCtx{}, fr.active...)
@@ -1010,6 +1015,9 @@ func (fr *Frame) step(st *State, in ssa.Instruction) {
 				break
 			}
 			fr.env[obj.Name()] = fr.get(st, x.X)
+			if fr.envType != nil {
+				fr.envType[obj.Name()] = typeKey(obj.Type())
+			}
 			if x.IsAddr {
 				fr.envAddr[obj.Name()] = true
 			} else {
@@ -1026,6 +1034,9 @@ func (fr *Frame) step(st *State, in ssa.Instruction) {
 		if x.Comment != "" {
 			fr.env[x.Comment] = fr.regs[x]
 			fr.envAddr[x.Comment] = true
+			if fr.envType != nil {
+				fr.envType[x.Comment] = typeKey(elem)
+			}
 		}
 	case *ssa.BinOp:
 		fr.regs[x] = fr.binop(st, x.Op, fr.get(st, x.X), fr.get(st, x.Y), x.X.Type(), x.Type())
